@@ -23,7 +23,46 @@ pub fn run(ctx: &mut Ctx) {
 fn run_clone(ctx: &mut Ctx) {
     let Some(mut f) = clonefam::generate(ctx, Which::C16) else { return };
     f.level2 = true;
-    let ob = clonefam::execute(&f);
+    // a quarter of the clones is made to fail (damaged chunk data, truncated archive, existing
+    // output without --force-create, wrong --verify-header): a failing clone must not remove,
+    // rename or write anything but the output either
+    let mut extra = clonefam::ExecExtra::default();
+    let mut presented: Option<Vec<u8>> = None;
+    let sabotage = *gen::t(|t| t.pick(&["none", "none", "none", "none", "none", "none", "payload-flip", "truncated", "exists-no-force", "wrong-verify-header"]));
+    match sabotage {
+        "payload-flip" => {
+            let mut a = f.made.archive.clone();
+            if a.len() > f.ra.header_len {
+                let i = f.ra.header_len + gen::draw((a.len() - f.ra.header_len) as u32) as usize;
+                a[i] ^= 0x40;
+                presented = Some(a);
+            }
+        }
+        "truncated" => {
+            let mut a = f.made.archive.clone();
+            let keep = f.ra.header_len + gen::draw((a.len() - f.ra.header_len) as u32 + 1) as usize;
+            a.truncate(keep);
+            presented = Some(a);
+        }
+        "exists-no-force" => {
+            if f.prior.is_none() {
+                f.prior = Some(b"an unrelated file that is in the way".to_vec());
+            }
+            f.seed_output = false;
+            f.blockdev = false;
+            extra.no_force = true;
+        }
+        "wrong-verify-header" => {
+            let mut sum = f.ra.header_checksum.clone();
+            sum[3] ^= 1;
+            extra.verify_header = Some(gen::hex(&sum));
+        }
+        _ => {}
+    }
+    if sabotage != "none" {
+        simkit::count("failing-clone-scenario");
+    }
+    let ob = clonefam::execute_with(&f, presented.as_deref(), &extra);
     let outcome = ob.outcome.clone().unwrap();
     if matches!(outcome, crate::cli::Outcome::Panic(_) | crate::cli::Outcome::StepBudget | crate::cli::Outcome::Deadlock) {
         ctx.fail(&format!("clone-outcome:{}", outcome.class()), format!("clone ended with {}; {}", outcome.short(), f.desc));
